@@ -24,7 +24,7 @@ fn contains_float(v: &Value) -> bool {
     }
 }
 
-/// keys strictly increasing (bytewise), no whitespace outside strings: a direct scan of the text
+/// no whitespace outside strings: a direct scan of the text
 fn scan_canonical(text: &[u8]) -> bool {
     let mut in_str = false;
     let mut esc = false;
@@ -42,6 +42,62 @@ fn scan_canonical(text: &[u8]) -> bool {
         } else if b == b' ' || b == b'\n' || b == b'\t' || b == b'\r' {
             return false;
         }
+    }
+    true
+}
+
+/// members of every object strictly increasing by code point of the (unescaped) name: a direct scan
+/// of the text that keeps the order serde_json's map would lose
+fn keys_sorted(text: &[u8]) -> bool {
+    enum Ctx {
+        Obj { last: Option<String>, expect_key: bool },
+        Arr,
+    }
+    let mut stack: Vec<Ctx> = vec![];
+    let mut i = 0;
+    while i < text.len() {
+        match text[i] {
+            b'{' => stack.push(Ctx::Obj { last: None, expect_key: true }),
+            b'[' => stack.push(Ctx::Arr),
+            b'}' | b']' => {
+                stack.pop();
+            }
+            b',' => {
+                if let Some(Ctx::Obj { expect_key, .. }) = stack.last_mut() {
+                    *expect_key = true;
+                }
+            }
+            b'"' => {
+                let start = i;
+                i += 1;
+                while i < text.len() && text[i] != b'"' {
+                    if text[i] == b'\\' {
+                        i += 1;
+                    }
+                    i += 1;
+                }
+                if i >= text.len() {
+                    return false;
+                }
+                if let Some(Ctx::Obj { last, expect_key }) = stack.last_mut() {
+                    if *expect_key {
+                        let k: String = match serde_json::from_slice(&text[start..=i]) {
+                            Ok(k) => k,
+                            Err(_) => return false,
+                        };
+                        if let Some(prev) = last {
+                            if prev.as_str() >= k.as_str() {
+                                return false;
+                            }
+                        }
+                        *last = Some(k);
+                        *expect_key = false;
+                    }
+                }
+            }
+            _ => {}
+        }
+        i += 1;
     }
     true
 }
@@ -74,6 +130,7 @@ pub fn case(sink: &mut Sink, r: &mut Rng, v: &Value, class: &str) {
         Err(_) => sink.oracle(false, "canonical text is not valid JSON", &replay),
     }
     sink.oracle(scan_canonical(&bytes), "whitespace outside strings in canonical text", &replay);
+    sink.oracle(keys_sorted(&bytes), "object members of the canonical text are not sorted by code point", &replay);
     // the model's strict reader must read the implementation's text as the same value
     sink.op(&format!("parsej {}", hex(&bytes)), &format!("ok {}", p), nontrivial);
     // deterministic / spelling-insensitive: other spellings of the same value canonicalize alike
